@@ -1,4 +1,5 @@
 import SynRBLModel.Proofs.Aam
+import SynRBLModel.Properties.C05
 import SynRBLModel.Generated.ValenceClasses
 /-!
 # C15 — atom-map removal keeps every molecule chemically identical
@@ -282,5 +283,20 @@ example : wfToks [.plain 'C', .bracket (str "SH2:7"), .plain 'c', .plain ':', .p
 example : 100 ≤ (Generated.valenceClasses.filter fun c =>
     c.valid && c.closedShell && rewritten c.body && !oxoHydride c).length := by
   decide +kernel
+
+/-- **C15 (pipeline).** The `input_reaction` reported for a valid row is the raw input with its atom maps removed, and no
+map class survives in it: removing map classes once more changes nothing. (For every parser, oracle, configuration and
+batch size; the raw input is any well-formed token string whose bracket bodies contain at most one colon.) -/
+theorem C15_reported_input_has_no_map (parse : Str → Bool) (oracleOf : Str → Oracle) (cfg : Config) (ts : List Tok)
+    (h : wfToks ts = true) (hc : ∀ t ∈ ts, t.colonOnce = true)
+    (hv : validReaction parse (Aam.remove (print ts)) = true) :
+    (runIn cfg (classify parse oracleOf (print ts))).input = Aam.remove (print ts) ∧
+    dropMaps (runIn cfg (classify parse oracleOf (print ts))).input =
+      (runIn cfg (classify parse oracleOf (print ts))).input := by
+  have e : (runIn cfg (classify parse oracleOf (print ts))).input = Aam.remove (print ts) := by
+    unfold classify
+    simp only [hv, if_true, runIn]
+    exact C05_row_describes_its_input _ cfg _
+  exact ⟨e, by rw [e]; exact C15_no_map_survives_string ts h hc⟩
 
 end SynRBL
